@@ -274,3 +274,60 @@ class MDPPSpec(DPPSpec):
 
 
 EV.SPECS.update({s.name: s for s in (DPPSpec(), MDPPSpec())})
+
+
+# =========================================================================================== SMTWTP
+class SMTWTPOracle:
+    """every job 1..n exactly once, the dummy start node 0 never; objective = -(sum of weight * tardiness)"""
+
+    def __init__(self, row, n):
+        self.n, self.row = n, row
+
+    def start(self):
+        return OState(done=[False] * (self.n + 1), time=0.0, cost=0.0)
+
+    def step(self, st, a, active, t):
+        st.flag(active, "dummy_never_scheduled", s_eq(a, 0))
+        st.flag(active, "each_job_once", pick(a, st["done"]))
+        fin = s_add(st["time"], pick(a, self.row["proc"]))
+        late = T.s_max(T.s_sub(fin, pick(a, self.row["due"])), 0.0)
+        st.upd(active, done=[s_or(d, s_eq(a, k)) for k, d in enumerate(st["done"])], time=fin, cost=s_add(st["cost"], T.s_mul(pick(a, self.row["weight"]), late)))
+
+    def complete(self, st):
+        return all_(st["done"][1:])
+
+    def objective(self, st):
+        return T.s_neg(st["cost"])
+
+
+class SMTWTPSpec(Spec):
+    name, module, cls = "smtwtp", "rl4co.envs.scheduling.smtwtp.env", "SMTWTPEnv"
+    checker = False
+    opaque_mul = True
+
+    def env_kwargs(self, n, variant):
+        return {"generator_params": {"num_job": n}, "check_solution": False}
+
+    def bound(self, n, variant):
+        return n
+
+    def instance(self, src, B, n, variant):
+        rows, due, wt, pr = [], [], [], []
+        for b in range(B):
+            d = [0.0] + [src.real(f"r{b}_due{j}", 0, None) for j in range(1, n + 1)]
+            w = [0.0] + [src.real(f"r{b}_w{j}", 0, None) for j in range(1, n + 1)]
+            p = [0.0] + [src.real(f"r{b}_p{j}", 0, None) for j in range(1, n + 1)]
+            rows.append({"due": d, "weight": w, "proc": p})
+            due.append(d), wt.append(w), pr.append(p)
+        src.ctx.assumptions.add("SMTWTP: due times, weights and processing times >= 0; index 0 is the dummy start node with zeros")
+        td = TensorDict({"job_due_time": ftensor(due), "job_weight": ftensor(wt), "job_process_time": ftensor(pr)}, batch_size=[B])
+        return Inst(td, rows, src.reals, [])
+
+    def rows_from_td(self, td, B, n, variant):
+        return [{"due": list(td["job_due_time"].a[b]), "weight": list(td["job_weight"].a[b]), "proc": list(td["job_process_time"].a[b])} for b in range(B)]
+
+    def oracle(self, row, n, variant):
+        return SMTWTPOracle(row, n)
+
+
+EV.SPECS.update({"smtwtp": SMTWTPSpec()})
